@@ -55,6 +55,7 @@ def cases(tier, seed):
         out.append(Case(f"polyak:{m}:first", kind="polyak", mesh=m, first=True, seed=seed))
         out.append(Case(f"polyak:{m}:later", kind="polyak", mesh=m, first=False, seed=seed))
     meshes.get_device("bar0", seed)
+    out.append(Case("polyak:two-solvers-one-mesh", kind="shared", seed=seed))
     for mi in ([0, 1, 2] if tier == "quick" else [0, 1, 2, 3]):
         out.append(Case(f"loop:max_iter={mi}", kind="loop", max_iter=mi, seed=seed))
     out.append(Case("loop:screening-off", kind="off", seed=seed))
@@ -62,7 +63,7 @@ def cases(tier, seed):
 
 
 def body(H, case):
-    return dict(kernel=body_kernel, polyak=body_polyak, loop=body_loop, off=body_off)[case.kind](H, case)
+    return dict(kernel=body_kernel, polyak=body_polyak, loop=body_loop, off=body_off, shared=body_shared)[case.kind](H, case)
 
 
 def body_kernel(H, case):
@@ -183,6 +184,52 @@ def body_polyak(H, case):
     H.prove_eq("returned error = max_e |K[J] - A_prev|_e / max(|A_new|_e, 1e-20)", err, worst, timeout=120)
     H.prove("history lists are trimmed to the last two entries", len(vals) <= 2 and len(vel) <= 2)
     H.prove("the new iterate is appended to the history", vals[-1] is A_new)
+
+
+def body_shared(H, case):
+    """Two solvers built one after the other (real constructor, screening on) for devices that share one
+    Mesh object but differ in the penetration depth: each one's Polyak iterate uses
+    (mu_0 / 4 pi) K0 / A0 = 1 / (pi Lambda) of *its own* device - nothing of an earlier solver survives."""
+    import math
+
+    dev1 = S.symbolic_device(H, "bar0", case.seed, symbolic_mesh=False)
+    mesh = dev1.mesh
+    em = mesh.edge_mesh
+    ns, ne = len(mesh.sites), len(em.edges)
+    xi = float(dev1.layer.coherence_length)
+    alpha = H.real("alpha", lo=0.0, hi=1.0, lo_open=True)
+    beta = H.real("beta", lo=0.0, hi=1.0, lo_open=True)
+    lams = [H.real("lambda1", lo=1.0, hi=4.0), H.real("lambda2", lo=1.0, hi=4.0)]
+    d = H.real("thickness", lo=0.05, hi=0.5)
+    q = H.reals("q", ne, lo=-3.0, hi=3.0)
+    Aprev = H.reals2("Ap", ne, 2, lo=-2.0, hi=2.0)
+    Js = site_average(H, mesh, q)
+    dev = dev1
+    for k, lam in enumerate(lams):
+        if k:
+            dev = dev1.copy(with_mesh=True)
+            H.prove("the copy shares the Mesh object of the original (what makes the scenario possible)", dev.mesh is mesh)
+        dev.layer.london_lambda = lam
+        dev.layer.thickness = d
+        opts = S.make_options(dt_init=0.01, dt_max=0.01, adaptive=False, include_screening=True, screening_step_size=alpha, screening_step_drag=beta)
+        solver = S.make_solver(H, dev, opts, validate=False)
+        A_new, err = solver.get_induced_vector_potential(q, [Aprev], [0.0])
+        Lam = lam * lam / d
+        # (1) the weights this solver holds are those of its own device: a_j xi^2 / (pi Lambda_k) up to the rounding
+        #     of the physical constants; (2) its iterate is the Polyak step with exactly those weights
+        for j in range(ns):
+            wj = float(mesh.areas[j]) * xi * xi / (math.pi * Lam)
+            dev_ = abs(K.at(solver.areas, j) - wj)
+            H.prove(f"solver {k + 1}: screening weight of site {j} = a_j xi^2 / (pi Lambda_{k + 1}) (to 1e-9)", dev_ <= 1e-9 * wj if H.mode == "sym" else bool(dev_ <= 1e-9 * wj))
+        for i in range(ne):
+            for c in range(2):
+                t = 0.0
+                for j in range(ns):
+                    dx = xi * float(em.centers[i, 0]) - xi * float(mesh.sites[j, 0])
+                    dy = xi * float(em.centers[i, 1]) - xi * float(mesh.sites[j, 1])
+                    t = t + Js[j][c] * K.at(solver.areas, j) / math.sqrt(dx * dx + dy * dy)
+                want = K.at(Aprev, i, c) + alpha * (t - K.at(Aprev, i, c))
+                H.prove_eq(f"solver {k + 1}: new iterate [{i},{c}] = A_prev + alpha (sum_j J_j w_j / r_ij - A_prev) with its own weights w", K.at(A_new, i, c), want)
 
 
 def _loop_solver(H, case, screening, max_iter):
